@@ -126,7 +126,16 @@ fn cmd_replay(args: &[String]) -> i32 {
                 (Ok(()), _, _) => exec::Judgement::Pass,
                 (Err(_), exec::Judgement::Skip(w), _) => exec::Judgement::Skip(w),
                 // both follow the specification (e.g. Err in the interpreter, trap in Cranelift)
-                (Err(_), exec::Judgement::Pass, exec::Judgement::Pass) => exec::Judgement::Pass,
+                (Err(d), exec::Judgement::Pass, exec::Judgement::Pass) => {
+                    if obs["k"] == "ok" && robs["k"] == "ok" {
+                        // the specification leaves room (e.g. modulo by zero, 32-bit) but the
+                        // engines must still agree with each other
+                        disagreements += 1;
+                        exec::Judgement::Fail(format!("engines disagree ({d}); each outcome is allowed by the specification taken alone, but {e} must agree with {pe}"))
+                    } else {
+                        exec::Judgement::Pass
+                    }
+                }
                 (Err(d), v, rj) => {
                     disagreements += 1;
                     if robs["k"] != "ok" && obs["k"] != "panic" && obs["k"] != "signal" && obs["k"] != "timeout" {
